@@ -240,6 +240,11 @@ func (conn *diskConn) Close() error {
 
 	conn.mu.Lock()
 	tracks := conn.close()
+	// DelLocal is asynchronous: make sure that a packet that is
+	// still in flight doesn't reopen the file.
+	for _, t := range tracks {
+		t.builder = nil
+	}
 	conn.mu.Unlock()
 
 	for _, t := range tracks {
@@ -540,6 +545,10 @@ func (t *diskTrack) writeRTP(p *rtp.Packet) error {
 // samples will be flushed even if they are preceded by incomplete
 // samples.
 func (t *diskTrack) writeBuffered(force bool) error {
+	if t.builder == nil {
+		return nil
+	}
+
 	codec := t.remote.Codec().MimeType
 
 	for {
